@@ -1692,11 +1692,11 @@ are well formed (ranked ids are in the sub-result's id set):
 * each ranked point carries `c₁ + c₂ + … + cₙ`, its contributions in sub-query order;
 * the ranked part is ordered by hybrid score, highest first. -/
 theorem merge_many {S : Type} (add : S → S → S) (le : S → S → Prop)
-    (sorter : List (Res S) → List (Res S))
+    (sorter stable : List (Res S) → List (Res S))
     (hperm : ∀ l, (sorter l).Perm l) (hsorted : ∀ l, (sorter l).Pairwise (fun a b => le b.hybrid a.hybrid))
     (isOr : Bool) (subs : List (SubResult S)) (hlen : subs.length ≠ 1)
     (hwf : ∀ s ∈ subs, ∀ r ∈ s.res, r.id ∈ s.set) :
-    let out := searchParallel add sorter isOr subs
+    let out := searchParallel add sorter stable isOr subs
     let all := (subs.map (·.res)).flatten
     (∀ id, id ∈ out.set ↔ if isOr then ∃ s ∈ subs, id ∈ s.set else subs ≠ [] ∧ ∀ s ∈ subs, id ∈ s.set) ∧
     (out.res.map (·.id)).Nodup ∧
@@ -1708,7 +1708,7 @@ theorem merge_many {S : Type} (add : S → S → S) (le : S → S → Prop)
   have hout : out = ⟨if isOr then unionAll (subs.map (·.set)) else interAll (subs.map (·.set)),
       sorter ((if isOr then all else all.filter (fun r => decide (r.id ∈
         (if isOr then unionAll (subs.map (·.set)) else interAll (subs.map (·.set)))))).foldl (mergeStep add) [])⟩ := by
-    show searchParallel add sorter isOr subs = _
+    show searchParallel add sorter stable isOr subs = _
     unfold searchParallel
     cases subs with
     | nil => rfl
@@ -1775,17 +1775,18 @@ theorem merge_many {S : Type} (add : S → S → S) (le : S → S → Prop)
 
 /-- the merge for any number of sub-queries (the statement of `C06_merge`) -/
 theorem merge_any {S : Type} (add : S → S → S) (le : S → S → Prop)
-    (sorter : List (Res S) → List (Res S))
+    (sorter stable : List (Res S) → List (Res S))
     (hperm : ∀ l, (sorter l).Perm l) (hsorted : ∀ l, (sorter l).Pairwise (fun a b => le b.hybrid a.hybrid))
+    (hstperm : ∀ l, (stable l).Perm l) (hstsorted : ∀ l, (stable l).Pairwise (fun a b => le b.hybrid a.hybrid))
     (isOr : Bool) (subs : List (SubResult S))
     (hwf : ∀ s ∈ subs, ∀ r ∈ s.res, r.id ∈ s.set) (hnd : ∀ s ∈ subs, (s.res.map (·.id)).Nodup) :
-    let out := searchParallel add sorter isOr subs
+    let out := searchParallel add sorter stable isOr subs
     let all := (subs.map (·.res)).flatten
     (∀ id, id ∈ out.set ↔ if isOr then ∃ s ∈ subs, id ∈ s.set else subs ≠ [] ∧ ∀ s ∈ subs, id ∈ s.set) ∧
     (out.res.map (·.id)).Nodup ∧
     (∀ id, id ∈ out.res.map (·.id) ↔ id ∈ out.set ∧ id ∈ all.map (·.id)) ∧
     (∀ r ∈ out.res, some r.hybrid = sumLeft add (contribs all r.id)) ∧
-    (subs.length ≠ 1 → out.res.Pairwise (fun a b => le b.hybrid a.hybrid)) := by
+    out.res.Pairwise (fun a b => le b.hybrid a.hybrid) := by
   intro out all
   by_cases hlen : subs.length = 1
   · obtain ⟨one, rfl⟩ : ∃ one, subs = [one] := by
@@ -1794,24 +1795,43 @@ theorem merge_any {S : Type} (add : S → S → S) (le : S → S → Prop)
       | cons a rest => cases rest with
         | nil => exact ⟨a, rfl⟩
         | cons b r => simp at hlen
-    have hout : out = one := rfl
+    have hout : out = ⟨one.set, stable one.res⟩ := rfl
     have hall : all = one.res := by simp [all]
     have hw := hwf one (by simp)
     have hn := hnd one (by simp)
+    have hp := hstperm one.res
+    have hn' : ((stable one.res).map (·.id)).Nodup := ((hp.map (·.id)).nodup_iff).mpr hn
     rw [hout, hall]
-    refine ⟨?_, hn, ?_, ?_, fun h => absurd rfl h⟩
+    refine ⟨?_, hn', ?_, ?_, hstsorted one.res⟩
     · intro id; cases isOr <;> simp
     · intro id
+      show id ∈ (stable one.res).map (·.id) ↔ id ∈ one.set ∧ id ∈ one.res.map (·.id)
+      rw [(hp.map (·.id)).mem_iff]
       constructor
       · intro h
         obtain ⟨r, hr, rfl⟩ := List.mem_map.mp h
         exact ⟨hw r hr, h⟩
       · exact fun h => h.2
     · intro r hr
-      rw [contribs_nodup hn hr]; rfl
-  · obtain ⟨h1, h2, h3, h4, h5⟩ := merge_many add le sorter hperm hsorted isOr subs hlen hwf
-    exact ⟨h1, h2, h3, h4, fun _ => h5⟩
+      have hr' : r ∈ one.res := hp.mem_iff.mp hr
+      rw [contribs_nodup hn hr']; rfl
+  · exact merge_many add le sorter stable hperm hsorted isOr subs hlen hwf
 
+
+/-- whatever the sub-results, `searchParallel` hands on a ranked list in hybrid-score order -/
+theorem searchParallel_sorted {S : Type} (add : S → S → S) (le : S → S → Prop)
+    (sorter stable : List (Res S) → List (Res S))
+    (hsorted : ∀ l, (sorter l).Pairwise (fun a b => le b.hybrid a.hybrid))
+    (hstsorted : ∀ l, (stable l).Pairwise (fun a b => le b.hybrid a.hybrid))
+    (isOr : Bool) (subs : List (SubResult S)) :
+    (searchParallel add sorter stable isOr subs).res.Pairwise (fun a b => le b.hybrid a.hybrid) := by
+  unfold searchParallel
+  cases subs with
+  | nil => exact hsorted _
+  | cons a rest =>
+    cases rest with
+    | nil => exact hstsorted _
+    | cons b r => exact hsorted _
 
 /-- the order the documentation asks of two rows, the first standing before the second: ranked rows
 highest hybrid score first, and no unranked row before a ranked one -/
@@ -1842,21 +1862,20 @@ theorem row_of_entry {S : Type} (docOf : Id → Doc) (rq : Request) (e : Entry S
   | ok d => simp only [hsh, Except.map, Except.ok.injEq] at h; subst h; exact ⟨rfl, rfl, rfl⟩
 
 theorem fullRows_rank_pairwise {S : Type} (le : S → S → Prop) (docOf : Id → Doc)
-    (rankSorter : List (Res S) → List (Res S))
-    (hsorted : ∀ l, (rankSorter l).Pairwise (fun a b => le b.hybrid a.hybrid))
-    (sorter : List (Row S) → List (Row S)) (r : SubResult S) (rq : Request) (hs : rq.sort = [])
-    (rows : List (Row S)) (h : fullRows docOf rankSorter sorter r rq = .ok rows) :
+    (sorter : List (Row S) → List (Row S)) (r : SubResult S)
+    (hr : r.res.Pairwise (fun a b => le b.hybrid a.hybrid)) (rq : Request) (hs : rq.sort = [])
+    (rows : List (Row S)) (h : fullRows docOf sorter r rq = .ok rows) :
     rows.Pairwise (fun a b => rankRel le a.hybrid b.hybrid) := by
   unfold fullRows at h
   cases hm : mapExcept (fun (e : Entry S) => (shape rq (docOf e.id)).map (fun d => (⟨e.id, e.hybrid, d⟩ : Row S)))
-      (backfill ⟨r.set, rankSorter r.res⟩) with
+      (backfill r) with
   | error e => simp [hm] at h
   | ok rows0 =>
     simp only [hm, hs, List.isEmpty_nil, if_true, Except.ok.injEq] at h
     subst h
     exact mapExcept_pairwise _ (·.hybrid) (·.hybrid) (rankRel le)
       (fun e row he => (row_of_entry docOf rq e row he).2.1) _ _ hm
-      (backfill_rank_pairwise le r.set _ (hsorted r.res))
+      (backfill_rank_pairwise le r.set r.res hr)
 
 /-! ### query trees -/
 
@@ -1900,14 +1919,15 @@ def ForestOK (add : S → S → S) (ts : QForest S) (os : List (SubResult S)) : 
   (∀ id, (∀ o ∈ os, id ∈ o.set) ↔ allSetB ts id = true) ∧ (os = [] ↔ ts.isNil = true) ∧
   (∀ id, contribs (os.map (·.res)).flatten id = hybridsSpec add ts id)
 
-theorem node_ok (add : S → S → S) (le : S → S → Prop) (sorter : List (Res S) → List (Res S))
+theorem node_ok (add : S → S → S) (le : S → S → Prop) (sorter stable : List (Res S) → List (Res S))
     (hperm : ∀ l, (sorter l).Perm l) (hsorted : ∀ l, (sorter l).Pairwise (fun a b => le b.hybrid a.hybrid))
+    (hstperm : ∀ l, (stable l).Perm l) (hstsorted : ∀ l, (stable l).Pairwise (fun a b => le b.hybrid a.hybrid))
     (isOr : Bool) (ts : QForest S) (os : List (SubResult S)) (h : ForestOK add ts os) :
-    TreeOK add (.node isOr ts) (searchParallel add sorter isOr os) := by
+    TreeOK add (.node isOr ts) (searchParallel add sorter stable isOr os) := by
   obtain ⟨hwf, hany, hall, hnil, hcon⟩ := h
-  obtain ⟨m1, m2, m3, m4, _⟩ := merge_any add le sorter hperm hsorted isOr os
+  obtain ⟨m1, m2, m3, m4, _⟩ := merge_any add le sorter stable hperm hsorted hstperm hstsorted isOr os
     (fun s hs => (hwf s hs).1) (fun s hs => (hwf s hs).2)
-  have hset : ∀ id, id ∈ (searchParallel add sorter isOr os).set ↔ inSetB (.node isOr ts) id = true := by
+  have hset : ∀ id, id ∈ (searchParallel add sorter stable isOr os).set ↔ inSetB (.node isOr ts) id = true := by
     intro id
     rw [m1 id]
     cases isOr
@@ -1928,7 +1948,7 @@ theorem node_ok (add : S → S → S) (le : S → S → Prop) (sorter : List (Re
   · intro x hx
     exact ((m3 x.id).mp (List.mem_map.mpr ⟨x, hx, rfl⟩)).1
   · intro id
-    by_cases hid : id ∈ (searchParallel add sorter isOr os).res.map (·.id)
+    by_cases hid : id ∈ (searchParallel add sorter stable isOr os).res.map (·.id)
     · obtain ⟨r, hr, rfl⟩ := List.mem_map.mp hid
       have hin := ((m3 r.id).mp hid).1
       rw [hybridOf_of_mem m2 hr, m4 r hr, hcon r.id]
@@ -1943,9 +1963,10 @@ theorem node_ok (add : S → S → S) (le : S → S → Prop) (sorter : List (Re
       · rw [if_neg hin]
 
 mutual
-theorem evalTree_ok (add : S → S → S) (le : S → S → Prop) (sorter : List (Res S) → List (Res S))
+theorem evalTree_ok (add : S → S → S) (le : S → S → Prop) (sorter stable : List (Res S) → List (Res S))
     (hperm : ∀ l, (sorter l).Perm l) (hsorted : ∀ l, (sorter l).Pairwise (fun a b => le b.hybrid a.hybrid))
-    (t : QTree S) (h : leavesWF t) : TreeOK add t (evalTree add sorter t) := by
+    (hstperm : ∀ l, (stable l).Perm l) (hstsorted : ∀ l, (stable l).Pairwise (fun a b => le b.hybrid a.hybrid))
+    (t : QTree S) (h : leavesWF t) : TreeOK add t (evalTree add sorter stable t) := by
   cases t with
   | leaf r =>
     simp only [leavesWF] at h
@@ -1955,18 +1976,19 @@ theorem evalTree_ok (add : S → S → S) (le : S → S → Prop) (sorter : List
   | node isOr ts =>
     simp only [leavesWF] at h
     simp only [evalTree]
-    exact node_ok add le sorter hperm hsorted isOr ts _ (evalForest_ok add le sorter hperm hsorted ts h)
-theorem evalForest_ok (add : S → S → S) (le : S → S → Prop) (sorter : List (Res S) → List (Res S))
+    exact node_ok add le sorter stable hperm hsorted hstperm hstsorted isOr ts _ (evalForest_ok add le sorter stable hperm hsorted hstperm hstsorted ts h)
+theorem evalForest_ok (add : S → S → S) (le : S → S → Prop) (sorter stable : List (Res S) → List (Res S))
     (hperm : ∀ l, (sorter l).Perm l) (hsorted : ∀ l, (sorter l).Pairwise (fun a b => le b.hybrid a.hybrid))
-    (ts : QForest S) (h : forestWF ts) : ForestOK add ts (evalForest add sorter ts) := by
+    (hstperm : ∀ l, (stable l).Perm l) (hstsorted : ∀ l, (stable l).Pairwise (fun a b => le b.hybrid a.hybrid))
+    (ts : QForest S) (h : forestWF ts) : ForestOK add ts (evalForest add sorter stable ts) := by
   cases ts with
   | nil =>
     simp only [evalForest]
     refine ⟨by simp, by simp [anySetB], by simp [allSetB], by simp [QForest.isNil], by simp [contribs, hybridsSpec]⟩
   | cons t ts =>
     simp only [forestWF] at h
-    obtain ⟨w1, s1, y1⟩ := evalTree_ok add le sorter hperm hsorted t h.1
-    obtain ⟨w2, a2, l2, _, c2⟩ := evalForest_ok add le sorter hperm hsorted ts h.2
+    obtain ⟨w1, s1, y1⟩ := evalTree_ok add le sorter stable hperm hsorted hstperm hstsorted t h.1
+    obtain ⟨w2, a2, l2, _, c2⟩ := evalForest_ok add le sorter stable hperm hsorted hstperm hstsorted ts h.2
     simp only [evalForest]
     refine ⟨?_, ?_, ?_, by simp [QForest.isNil], ?_⟩
     · intro o ho
